@@ -108,7 +108,7 @@ func zvdPlanRound(in *zvdInst, cfg *zvdConcCfg, r *mrand.Rand) []zvdPlanOp {
 		}
 		for i := 0; i < k; i++ {
 			last := i == k-1
-			rq := zvdRandomOp(&cfg.Universe, r, last && mode != "leave")
+			rq := zvdRandomOpHint(&cfg.Universe, r, last && mode != "leave", in.hint)
 			if zvdParks(rq) && (!last || parked >= 3) {
 				rq = zvdRq{Op: "list", Code: 11}
 			}
@@ -341,6 +341,7 @@ func (in *zvdInst) zvdRunRound(bid string, plan []zvdPlanOp) zvdBatch {
 	b.Ops = kept
 	mu.Unlock()
 	b.Final = in.project()
+	in.hint = append(append([]string{}, b.Final.U...), b.Final.M...)
 	for i, r := range b.Final.K {
 		if r.S == "srvclosed" {
 			in.conns[r.C].nc.Close()
